@@ -5,7 +5,7 @@ from hypothesis import strategies as st
 import pytenet as ptn
 from core import Part, require, known_listed, Violation, _classify
 from lanczos_monitor import LanczosMonitor
-from gen_dyn import ham_and_state, build_ham, dense_ham, dense_state, sector_mask, gauge_edit
+from gen_dyn import ham_and_state, build_ham, dense_ham, dense_state, sector_mask, gauge_edit, quench_ham
 from gen_qn import build_mps
 from oracle_dense import mps_mask_violation
 
@@ -76,7 +76,10 @@ def _check_tdvp(case, rec):
     q_first = np.array(psi.qD[0]).copy(); q_last = np.array(psi.qD[-1]).copy()
     total = int(q_last[0]) - int(q_first[0])
 
+    href = {'Hd': Hd, 'nH': nH, 'HA0': HA0}
+
     def one_call(label, Ebefore, D_before, nrm_expected):
+        Hd = href['Hd']; nH = href['nH']; HA0 = href['HA0']
         ret = run_integrator(kind, H, psi, dt, steps, iters)
         require(abs(float(np.real(ret)) - nrm_expected) <= 1e-10 * max(1.0, nrm_expected), label + ': return value is not the norm of the input state',
                 got=float(np.real(ret)), want=nrm_expected)
@@ -122,6 +125,14 @@ def _check_tdvp(case, rec):
             psi.A[k] = 2.0 * psi.A[k]
             expect = 2.0
             rec.label('edit_between_calls')
+        if case.get('edit_H'):
+            # the Hamiltonian OBJECT is changed between the calls (parameter quench: tensors of another Hamiltonian of the same family
+            # assigned to it): the second call must evolve with the operator the object denotes now
+            if quench_ham(H, case['ham']):
+                Hq = dense_ham(H)
+                href['Hd'] = Hq; href['nH'] = max(1.0, np.linalg.norm(Hq, 2)); href['HA0'] = [a.copy() for a in H.A]
+                E1 = float(np.vdot(v1, Hq @ v1).real)
+                rec.label('hamiltonian_changed_between_calls')
         one_call('second call', E1, psi.bond_dims, expect)
         rec.label('second_call')
     rec.label('model_' + (case['ham'].get('model') or 'random'), 'integrator_' + kind, 'iters=%d' % iters, 'L=%d' % L)
@@ -139,6 +150,7 @@ def gen_tdvp(draw, tier):
     c['scale'] = draw(st.sampled_from([4.0, 0.25, -2.0, 1024.0]))   # powers of two: the scaling is exact in floating point
     c['second_call'] = draw(st.booleans())
     c['edit_between'] = draw(st.sampled_from([False, True, 'gauge']))
+    c['edit_H'] = draw(st.sampled_from([False, False, True]))
     return c
 
 
